@@ -71,6 +71,9 @@ func (x *X) evalClause(s *State, c *Clause, ctx evalCtx) string {
 	if !ok || sc.Sort != "Bool" {
 		x.fail("%s:%d: clause is not a formula: %s", c.File, c.Line, c.Text)
 	}
+	if !ctx.assuming {
+		x.lastGroup = c.Group
+	}
 	return sc.T
 }
 
@@ -884,6 +887,26 @@ func (ev *Ev) call(n *ast.CallExpr) Val {
 			}
 			return boolV(v.Nil)
 		}
+	case "indexIn":
+		// indexIn(list, Field, w): the least index at which list[k].Field == w, -1 if none (string fields)
+		need(3)
+		sl, ok := ev.derefAll(arg(0)).(Sl)
+		if !ok {
+			ev.errf("indexIn: first argument must be a slice")
+		}
+		fld, ok := n.Args[1].(*ast.Ident)
+		if !ok {
+			ev.errf("indexIn: second argument must be a field name")
+		}
+		el, ok := x.flat(ev.cur, x.slElem(ev.cur, sl)).(St)
+		if !ok {
+			ev.errf("indexIn: slice of %T", x.slElem(ev.cur, sl))
+		}
+		col, ok := el.F[fld.Name].(Sc)
+		if !ok {
+			ev.errf("indexIn: no string field %s", fld.Name)
+		}
+		return intV(sApp("idxOf", col.T, sl.Len, tm(arg(2))))
 	case "sameExcept":
 		// sameExcept(a, b, f1, f2, ...): all leaves equal except those under the named fields
 		if len(n.Args) < 2 {
